@@ -35,6 +35,19 @@ type c12Ev struct {
 	Ok   bool `json:"ok"`
 	Fail bool `json:"fail,omitempty"` // the inner source fails on its own
 	Join bool `json:"join,omitempty"` // joining, file script: the live factory gives a source at this block
+	H    int  `json:"h,omitempty"`    // height when it differs from the identity B (forks: equal or lower heights follow higher ones)
+}
+
+// c12Ident recovers the identity B of a block from its id ("%08x" + suffix); 0 for the empty ref
+func c12Ident(id string) int {
+	if len(id) < 8 {
+		return 0
+	}
+	v, err := strconv.ParseUint(id[:8], 16, 64)
+	if err != nil {
+		return 0
+	}
+	return int(v)
 }
 type c12Inj struct {
 	Mode    string `json:"mode"` // point | handler | factory | idle | random
@@ -177,7 +190,7 @@ func (c *c12Ctx) handler(inside func(n int), work func()) bstream.Handler {
 	return bstream.HandlerFunc(func(blk *pbbstream.Block, obj interface{}) error {
 		src, _ := strconv.Atoi(blk.ParentId)
 		ok := !strings.HasSuffix(blk.Id, "f")
-		b := int(blk.Number)
+		b := c12Ident(blk.Id)
 		n := c.begin(src, b)
 		if inside != nil {
 			inside(n)
@@ -198,7 +211,11 @@ func c12Block(src int, ev c12Ev) *pbbstream.Block {
 	if !ev.Ok {
 		suf = "f"
 	}
-	return &pbbstream.Block{Number: uint64(ev.B), Id: fmt.Sprintf("%08x%s", ev.B, suf), ParentId: strconv.Itoa(src)}
+	h := ev.B
+	if ev.H > 0 {
+		h = ev.H
+	}
+	return &pbbstream.Block{Number: uint64(h), Id: fmt.Sprintf("%08x%s", ev.B, suf), ParentId: strconv.Itoa(src)}
 }
 
 // ---------------------------------------------------------------- scripted inner source (obeys the Source contract)
@@ -421,7 +438,7 @@ func c12ExecEternal(in *c12In) *c12Obs {
 		if in.Inj.Mode == "factory" && nfac == in.Inj.N {
 			inject()
 		}
-		ctx.add(c12Lev{K: "F", A: 0, B: int(ref.Num())})
+		ctx.add(c12Lev{K: "F", A: 0, B: c12Ident(ref.ID())})
 		var script []c12Ev
 		if nfac-1 < len(in.Supply) {
 			script = in.Supply[nfac-1]
@@ -1235,6 +1252,8 @@ func c12Corpus() []any {
 		nil,
 		{{{B: 1, Ok: true}, {B: 2, Ok: true}, {B: 3, Ok: false}}, {{B: 4, Ok: true}}},
 		{{{B: 1, Ok: true}, {Fail: true}}, {{Fail: true}}, {{B: 2, Ok: true}, {B: 3, Ok: true}}},
+		// reorgs: the last accepted block has an equal or lower height than an earlier one
+		{{{B: 1, H: 5, Ok: true}, {B: 2, H: 6, Ok: true}, {B: 3, H: 6, Ok: true}, {Fail: true}}, {{B: 4, H: 7, Ok: true}, {B: 5, H: 5, Ok: true}}, {{B: 6, H: 6, Ok: true}}},
 	}
 	for _, sup := range etSupplies {
 		for p := 0; p <= 4; p++ {
@@ -1361,6 +1380,25 @@ func c12Gen(r *Rng, i int, tier string) any {
 			sc := c12RandScript(r, base, 4, true)
 			base += 5
 			sup = append(sup, sc)
+		}
+		if r.Chance(50) {
+			// fork-shaped heights: each block at the previous height +1, equal, or up to 2 lower
+			h := 10
+			for k := range sup {
+				for j := range sup[k] {
+					if sup[k][j].Fail {
+						continue
+					}
+					switch r.Intn(4) {
+					case 0, 1:
+						h++
+					case 2:
+					default:
+						h -= 1 + r.Intn(2)
+					}
+					sup[k][j].H = h
+				}
+			}
 		}
 		return c12In{Kind: "eternal", Supply: sup, Inj: c12RandInj(r, []int{0, 1, 2, 3, 4}, 3), Seed: r.U64() % 1000}
 	case 6, 7, 8, 9, 10:
